@@ -116,7 +116,7 @@ def gen_scenario(rng, index):
         pk = "bernoulli"
     if family == "cold":
         # first-use races: one thread should get well ahead of the others before they start
-        pk = rng.choice(["pct", "pct", "bernoulli", "targeted", "park"])
+        pk = rng.choice(["pct", "bernoulli", "targeted", "park", "park", "park"])
     if pk == "bernoulli":
         # every switch costs two OS context switches: keep the dense policy for the small 'race' workloads
         p = rng.choice([0.3, 0.03, 0.003]) if family == "race" else rng.choice([0.03, 0.003, 0.0003, 0.0003])
